@@ -5,7 +5,6 @@ import DeepModel.Props.C13
 #print axioms C13.c13_register_active
 #print axioms C13.c13_unregister_exact
 #print axioms C13.c13_others_untouched
-#print axioms C13.c13_same_location
 #print axioms C13.c13_idempotent
 #print axioms C13.c13_unknown_handle
 #print axioms C13.c13_service_disjoint
